@@ -15,6 +15,8 @@ var propTable = map[string]propDesc{
 		Decides: []string{
 			"R13: the chunk size of postings is derived from (segment chunk mode, postings cardinality, segment document count) at the build writer, the merge writer and the reader alike, in both build-tag configurations",
 			"R14c: format constants that the postings encoding depends on have their v16 values",
+			"R28: the chunked int coders reused from term to term are Reset after each term is written",
+			"R29: every component encoded per location (field, position, start, end, array-position count) is computed from that very location",
 		},
 		NotDecided: []string{"which documents/frequencies/norms/locations come back", "sizing of the shared backing arrays by the counting pass", "varint contents"},
 		Explain:    "Narrow claim: writer/reader agreement on chunk-size derivation is a necessary condition named in the property's own anchors.",
@@ -58,6 +60,10 @@ var propTable = map[string]propDesc{
 			"R17: byte copy of posting details only under fieldsSame",
 			"R24: remapped numbers tested against the drop sentinel before use",
 			"R18: section addresses are wired into the field table on the merge path",
+			"R25: per-segment input tables and per-field compacted tables are indexed in their own index space",
+			"R26: loops over fields and segments are exhaustive",
+			"R28: per-term accumulators (coders, postings bitmap, last-hit scalars read by the 1-hit decision) are reset after each term",
+			"R29: every component encoded per location is computed from that very location",
 		},
 		NotDecided: []string{"merged frequencies/norms/locations/doc values", "enumerator ordering", "1-hit encoding decisions"},
 	},
@@ -76,8 +82,9 @@ var propTable = map[string]propDesc{
 		Decides: []string{
 			"R14: writer-side and reader-side footer equal the frozen v16 table; format constants have their v16 values",
 			"R13: chunk derivation kinds",
+			"R27: fixed-width big-endian records below the footer (field-table pairs, fields index, stored-document index, doc-value trailer) keep their widths, strides and order on both sides",
 		},
-		NotDecided: []string{"everything below the footer: section table, postings records, stored blocks, doc-value chunks, thesaurus blocks", "files frozen from the pinned release cannot be read by a static check"},
+		NotDecided: []string{"the uvarint streams below the footer: section table, postings records, stored blocks, doc-value chunks, thesaurus blocks", "files frozen from the pinned release cannot be read by a static check"},
 	},
 	"C10": {
 		Decides: []string{
